@@ -26,7 +26,12 @@
                struct/union whose members are hoisted;  named = FALSE and bf: unnamed bit-field
      node  ::= [kind |-> "struct" | "union", pack |-> 0 | 1 | 2 | 4 | 8 | 16, fields |-> Seq(field)]
                pack = 0: natural layout; pack = N: declared under cdef(pack=N) / #pragma pack(N);
-               pack = 1 is cdef(packed=True)
+               pack = 1 is cdef(packed=True).  pack is the option of the cdef() call that contains
+               the DEFINITION (the "{ ... }").
+               Optional declaration history: hist |-> [form |-> "fwd" | "typedef" | "ptr" | "realized",
+               pack |-> option of an EARLIER cdef() call in which the tag was first mentioned without
+               a body ("struct S;", "typedef struct S S_t;", a "struct S *" member of another struct,
+               or "struct S;" followed by realising "struct S *" in the backend)].
 
    Result of both descriptions
      [size, align, places]  places = one entry per named leaf member in declaration order
@@ -82,7 +87,8 @@ AbiInit == [pos |-> 0, al |-> 1, mx |-> 0, places |-> <<>>]
 \* one member; st.pos = first free bit (struct) - unions restart every member at bit 0
 AbiMemberSA(node, st, f, sa) ==
   LET base == IF node.kind = "union" THEN 0 ELSE st.pos
-      \* #pragma pack(N) caps the alignment of every member at N
+      \* #pragma pack(N) in effect at the DEFINITION caps the alignment of every member at N (an earlier
+      \* incomplete declaration under another packing has no influence)
       ea   == IF node.pack > 0 THEN Min(node.pack, sa.a) ELSE sa.a
   IN
   IF ~f.bf THEN
@@ -154,7 +160,7 @@ InClass(node) ==
 (***************************************************************************)
 (* IMPLEMENTATION MODEL - b_complete_struct_or_union_lock_held             *)
 (***************************************************************************)
-CONSTANT Variant     \* "faithful" | deliberately broken: "arm" | "msvc" | "fitge" | "nounionreset"
+CONSTANT Variant     \* "faithful" | deliberately broken: "arm" | "msvc" | "fitge" | "nounionreset" | "firstmention"
 
 DEFAULT_PACKING == 1073741824     \* SF_DEFAULT_PACKING = 0x40000000, _cffi_backend.c:5092
 BS_REGULAR     == 0 - 1
@@ -163,9 +169,15 @@ BS_EMPTY_ARRAY == 0 - 2
 \* model.py:420-427 finish_backend_type: packed == 1 -> sflags = SF_PACKED; packed = N -> (0, N)
 \* _cffi_backend.c:5095 complete_sflags on this platform: SF_GCC_X86_BITFIELDS|SF_GCC_LITTLE_ENDIAN
 \* _cffi_backend.c:5163-5168
+\* cparser.py Parser._get_struct_union_enum_type: `tp.packed = self._options.get('packed')` is executed
+\* where the BODY of the struct/union is parsed, i.e. with the options of the cdef() that defines it; an
+\* earlier mention without body creates the StructType with packed = 0 and leaves it alone.
+\* Variant "firstmention": the attribute is taken where the tag is first mentioned instead.
+HasHist(node) == "hist" \in DOMAIN node
+PackedAttr(node) == IF Variant = "firstmention" /\ HasHist(node) THEN node.hist.pack ELSE node.pack
 Cx(node) ==
-  LET sf_packed_arg == node.pack = 1
-      pack_arg      == IF node.pack > 1 THEN node.pack ELSE 0
+  LET sf_packed_arg == PackedAttr(node) = 1
+      pack_arg      == IF PackedAttr(node) > 1 THEN PackedAttr(node) ELSE 0
   IN [union  |-> node.kind = "union",
       msvc   |-> Variant = "msvc",
       arm    |-> Variant = "arm",
